@@ -84,16 +84,56 @@ inductive OpX where
   | plain (op : Op)
   | shuffle (seed : Int)
   | sample (nb : Int) (seed : Int)
+  /-- `RenameRegexp`: the regular-expression substitution is external; its values (one new name per row, or the
+  fact that the expression does not compile) are read from the status the harness reports for that step -/
+  | renameRe
 
-def resolve (n : Nat) : OpX → Op
+/-- the externally computed part of a `renamere` status: `…{!}` = the expression does not compile,
+`…{=n1=n2…}` = the new name of every row in order (percent-encoded) -/
+def decExt (record : String) : Option (Bool × List String) :=
+  let st := (record.splitOn "|").headD ""
+  match st.splitOn "{" with
+  | [_, r] =>
+    match r.splitOn "}" with
+    | [body, ""] =>
+      if body == "!" then some (false, [])
+      else if body == "" then some (true, [])
+      else match body.splitOn "=" with
+        | "" :: names => some (true, names.map pctDec)
+        | _ => none
+    | _ => none
+  | _ => none
+
+def encExt (ok : Bool) (names : List String) : String :=
+  "{" ++ (if ok then String.join (names.map fun n => "=" ++ pctEnc n) else "!") ++ "}"
+
+/-- `record` = what the implementation reported for this step (only `renameRe` looks at it) -/
+def resolve (n : Nat) (record : String) : OpX → Op
   | .plain op => op
   | .shuffle seed => .permute (runSeed (shuffleAux n (List.range n)) seed)
   | .sample nb seed => .sample nb (runSeed (permProg n) seed)
+  | .renameRe =>
+    match decExt record with
+    | some (ok, names) => .renameRe ok names
+    -- no usable record (the implementation's trace ended, or is malformed): an expression that does not
+    -- compile; the traces then differ at this step at the latest
+    | none => .renameRe false []
+
+/-- the probes a step adds beyond those of its text: `renamere` probes every old and every new name -/
+def extraProbes (cur : List String) : Op → List String
+  | .renameRe true names => cur ++ names
+  | _ => []
+
+/-- the echo of the external values in the status of a `renamere` step -/
+def statusEcho : Op → String
+  | .renameRe ok names => encExt ok names
+  | _ => ""
 
 def decOpX (s : String) : Option (OpX × List String) :=
   match s.splitOn ":" with
   | ["shuffle", sd] => (parseInt? sd).map fun v => (.shuffle v, [])
   | ["sample", nb, sd] => do let a ← parseInt? nb; let b ← parseInt? sd; pure (.sample a b, [])
+  | ["renamere", _, _] => some (.renameRe, [])
   | _ => none
 
 def decOp (s : String) : Option (Op × List String) :=
@@ -134,6 +174,8 @@ def decOp (s : String) : Option (Op × List String) :=
   | ["autoalpha"] => some (.autoAlpha, [])
   | ["revcomp"] => some (.revcomp, [])
   | ["compress"] => some (.compress, [])
+  | ["unalign"] => some (.unalign, [])
+  | ["setalpha", a] => (parseInt? a).map fun v => (.setAlpha v, [])
   | ["rmgapsites", f, e] => do
     let (x, y) ← frac f
     pure (.rmGapSites x y (decBool e), [])
@@ -151,23 +193,23 @@ def initSpec (kind : String) (alpha : Nat) (rows : List (String × Seq)) : Spec.
   let b0 : Spec.SBag := { alphabet := if kind == "A" && alpha == BOTH then NUCLEOTIDS else alpha, isAlign := kind == "A" }
   rows.foldl (fun (acc : Spec.SBag × Bool) r => let a := Spec.add acc.1 r.1 r.2; (a.1, acc.2 || a.2)) (b0, false)
 
-def traceModel : Bag → List String → List (OpX × List String) → List String
+def traceModel : Bag → List String → List (OpX × List String × String) → List String
   | _, _, [] => []
-  | b, probes, (opx, pr) :: t =>
-    let probes := probes ++ pr
-    let op := resolve b.rows.length opx
+  | b, probes, (opx, pr, record) :: t =>
+    let op := resolve b.rows.length record opx
+    let probes := probes ++ pr ++ extraProbes (b.rows.map (·.name)) op
     let r := stepOp b op
     if r.2 == "PANIC" then ["PANIC"] else
-    (r.2 ++ "|" ++ render (obsModel r.1 probes)) :: traceModel r.1 probes t
+    (r.2 ++ statusEcho op ++ "|" ++ render (obsModel r.1 probes)) :: traceModel r.1 probes t
 
 /-- the reference trace; stops (returns what it has) when the reference leaves the state unspecified -/
-def traceSpec : Spec.SBag → List String → List (OpX × List String) → List String
+def traceSpec : Spec.SBag → List String → List (OpX × List String × String) → List String
   | _, _, [] => []
-  | b, probes, (opx, pr) :: t =>
-    let probes := probes ++ pr
-    let op := resolve b.rows.length opx
+  | b, probes, (opx, pr, record) :: t =>
+    let op := resolve b.rows.length record opx
+    let probes := probes ++ pr ++ extraProbes b.names op
     match Spec.stepOp b op with
-    | (some b', st) => (st ++ "|" ++ render (obsSpec b' probes)) :: traceSpec b' probes t
+    | (some b', st) => (st ++ statusEcho op ++ "|" ++ render (obsSpec b' probes)) :: traceSpec b' probes t
     | (none, _) => []
 
 /-- `len=` equals the length of every row shown by `it=` (and `-1` iff there is no row) -/
@@ -193,6 +235,9 @@ def handle : Handler := fun op args impl =>
       | some x => some x
       | none => (decOp o).map fun p => (OpX.plain p.1, p.2))
     let probes0 := rows.map Prod.fst
+    -- the implementation's record of every step (record 0 is the construction), for the externally computed values
+    let irecs := impl.splitOn ";"
+    let opl := opl.zipIdx.map fun (p, k) => (p.1, p.2, irecs.getD (k + 1) "")
     let (m0, e0) := initModel kind alpha rows
     let mtrace := ((if e0 then "err" else "ok") ++ "|" ++ render (obsModel m0 probes0)) :: traceModel m0 probes0 opl
     let (s0, se0) := initSpec kind alpha rows
